@@ -1,7 +1,7 @@
 """C35 — Error-log aggregation loses nothing and counts repeats.
 
 Complete enumeration of error-log streams: every sequence of batches (ErrorLog objects) with every sequence of
-entries over messages {a,b} x severities {logging.WARNING, logging.ERROR} x created_time {1,2,3}, fed batch by batch
+entries over messages {a,b} x severities {logging.WARNING, logging.ERROR} x created_time {T, T+0.5 s, T+1 s} (T = 1.7e9, epoch scale), fed batch by batch
 to one real AggregatedErrorLog.aggregate_with.  The aggregated entries are compared with a reference fold written
 from the statement.
 
@@ -35,7 +35,7 @@ META = dict(
 
 MESSAGES = ("a", "b")
 SEVERITIES = (logging.WARNING, logging.ERROR)
-TIMES = (1.0, 2.0, 3.0)
+TIMES = (1_700_000_000.0, 1_700_000_000.5, 1_700_000_001.0)      # epoch-scale times half a second apart (what time.time() gives)
 # symbol = (message, severity, time); ordered simplest first
 SYMBOLS = tuple((m, s, t) for t in TIMES for s in SEVERITIES for m in MESSAGES)
 NSYM = len(SYMBOLS)
@@ -270,7 +270,7 @@ def run(ctx):
     ctx.coverage.update(
         evaluations=tot["evaluations"], distinct_nontrivial=tot["merging"],
         rule="every sequence of batches within the bounds, every entry sequence over the 12 symbols "
-             "(message a/b x severity WARNING/ERROR x time 1/2/3); all cases are distinct by construction; "
+             "(message a/b x severity WARNING/ERROR x time T, T+0.5, T+1 with T = 1.7e9); all cases are distinct by construction; "
              "non-trivial = at least one merge (an aggregated entry with occurrences > 1 in the reference fold)",
         samples=samples, exhaustive=True, bounds=bounds,
         main_class=tot["main"], older_class=tot["older"], with_redelivered_duplicate=tot["redelivered"],
